@@ -36,21 +36,29 @@ N = {"quick": {"random": 2500, "weighted": 4000, "internal_rate": 3}, "thorough"
 
 
 def gen(tier, seed, shard, nshards):
+    if tier == "thorough":
+        for m, module in enumerate(['test_utils.py', 'test_lganm.py', 'test_generators.py']):
+            if m % nshards == shard:
+                yield "repo-tests", {"module": module}
     for c in _gc.iter_pdag_cases((1, 2, 3, 4), shard, nshards):
         yield "pdag", c
     for k in range(N[tier]["random"]):
         if k % nshards == shard:
             rng = util.rng_for("C16", seed, "r", k)
-            p = int(rng.integers(5, 10))
+            p = int(rng.integers(5, 14))
             yield "random-pdag", {"masks": gmat.random_pdag_masks(rng, p)}
     for k in range(N[tier]["weighted"]):
         if k % nshards == shard:
             rng = util.rng_for("C16", seed, "w", k)
-            p = int(rng.integers(1, 10))
+            p = int(rng.integers(1, 15))
             out = gmat.random_dag_masks(rng, p)
             yield "weighted-dag", {"W": gmat.weighted(rng, out, dtype=int if k % 3 == 0 else float)}
     for c in _gc.iter_pdag_cases((3, 4), shard, nshards):
         yield "internal", c
+    # relabelled copies of the small PDAGs inside 9..13 nodes (labels >= 8 included)
+    for c in _gc.iter_pdag_cases((3, 4), shard, nshards):
+        if c["code"] % 2 == 0:
+            yield "embedded-pdag", dict(c, P=9 + c["code"] % 5)
 
 
 def setup(rec):
@@ -69,6 +77,10 @@ def _call(rec, family, case, name, fn, *args):
 
 
 def judge(family, case, rec):
+    if family == "repo-tests":
+        from ..workloads import repotests
+        repotests.run(rec, case["module"])
+        return
     import sempler.utils as U
     from ..monitors import graph_contracts as GC
     tier = rec.tier
@@ -102,11 +114,19 @@ def judge(family, case, rec):
         if not G.directed_part_acyclic(out):
             rec.count("out_of_domain:cyclic-directed-part")
             return
-        A = gmat.to_np(out, dtype=int if case["code"] % 2 else float)
+        A = gmat.hostile_array(gmat.to_np(out, dtype=int if case["code"] % 2 else float), case["code"] // 2)
         key = (case["p"], case["code"])
+    elif family == "embedded-pdag":
+        small = G.pdag_from_code(case["p"], case["code"])
+        if not G.directed_part_acyclic(small) or G.n_edges(small) < 2:
+            return
+        out = gmat.embed_any(small, case["P"], util.rng_for("%se" % rec.pid, case["p"], case["code"]), case.get("code", case.get("code3", 0)) // 2)
+        A = gmat.reuse(gmat.to_np(out, dtype=int if case["code"] % 4 else float))
+        key = ("e", case["p"], case["code"])
+        rec.count("embedded:graphs")
     elif family == "random-pdag":
         out = list(case["masks"])
-        A = gmat.to_np(out)
+        A = gmat.reuse(gmat.to_np(out))      # the same caller-owned array object, overwritten in place between cases
         key = None
     else:
         A = case["W"]
